@@ -282,6 +282,7 @@ def main(module):
     ap.add_argument("--replay", default=None)
     ap.add_argument("--jobs", type=int, default=int(os.environ.get("VERIF_JOBS", "16")))
     ap.add_argument("--only", default=None, help="debug: restrict to shards whose 'kind' contains this string")
+    ap.add_argument("--stride", type=int, default=1, help="debug/triage: run every N-th shard only (evidence says exhaustive=false)")
     a = ap.parse_args()
     seed = int(os.environ.get("VERIF_SEED", "0") or 0)
     t0 = time.time()
@@ -306,5 +307,9 @@ def main(module):
         sh = module.shards(a.tier, seed)
         if a.only:
             sh = [s for s in sh if a.only in str(s.get("kind", ""))]
+        if a.stride > 1:
+            sh = sh[::a.stride]
         acc = pmap(module, sh, a.jobs)
+        if a.only or a.stride > 1:
+            acc.caps.append(f"debug run: only={a.only} stride={a.stride}")
     finish(module, acc, a.tier, seed, t0, bounds=getattr(module, "bounds", lambda t, s: {})(a.tier, seed))
